@@ -22,10 +22,10 @@ U64 = lambda v: Int(64, v)
 class P:
     """symbolic parameters shared by the situations"""
 
-    def __init__(self, ex, tag='', mtu=None):
+    def __init__(self, ex, tag='', mtu=None, issA=None, issB=None):
         self.ex = ex
-        self.issA = sym_int('issA' + tag, 32)
-        self.issB = sym_int('issB' + tag, 32)
+        self.issA = issA if issA is not None else sym_int('issA' + tag, 32)
+        self.issB = issB if issB is not None else sym_int('issB' + tag, 32)
         if mtu is None:
             self.mtu = Int(16, 1500)
         else:
@@ -182,7 +182,10 @@ def all_units(situations=None, fin_split=True):
     for s in (situations or QUICK_SITUATIONS):
         for tgt in SITUATIONS[s][1]:
             for cls in range(16 if fin_split else 8):
-                units.append({'situation': s, 'target': tgt, 'cls': cls})
+                u = {'situation': s, 'target': tgt, 'cls': cls}
+                if not fin_split:
+                    u['fin_sym'] = True
+                units.append(u)
     return units
 
 
@@ -254,6 +257,58 @@ def seg_flagset(F, seg):
     return fl
 
 
+def forged_scenario(ex, F, unit, tier, holder, p=None, shift=None, key='sim'):
+    """drive the pair into the unit's situation and inject the forged segment.  `shift` = (d_seq, d_ack) added to the forged
+    segment's sequence / acknowledgment numbers (used by the relational C12 check)."""
+    sname, target, cls = unit['situation'], unit['target'], unit['cls']
+    builder, _, expect = SITUATIONS[sname]
+    flags = flags_of(cls)
+    peer = PEER[target]
+    sim = Sim(ex, F)
+    holder[key] = sim
+    sim.record = True
+    p = p or P(ex)
+    builder(sim, p)
+    if sim.view(target).state_name != expect[target]:
+        raise Unsupported(f'situation {sname} did not reach {expect[target]} (got {sim.view(target).state_name})')
+    pre = _snapshot_obs(sim, target)
+    # the forged segment: ACK/RST/SYN/FIN fixed by the unit, PSH/URG symbolic, everything else symbolic
+    rest = sym_int('f_pu', 8)
+    symmask = PSH | URG | (FIN if unit.get('fin_sym') else 0)
+    ex.assume(ex.binop('Eq', ex.binop('BitAnd', rest, Int(8, 0xff ^ symmask), False), Int(8, 0), False))
+    base = (ACK if 'ACK' in flags else 0) | (RST if 'RST' in flags else 0) | (SYN if 'SYN' in flags else 0) | (FIN if 'FIN' in flags else 0)
+    ctl = ex.binop('BitOr', rest, Int(8, base), False)
+    tl = sym_int('f_len', 64)
+    mss = p.mtu.v - 50
+    ex.assume(ex.binop('Le', tl, U64(mss), False))
+    fseq, fack = sym_int('f_seq', 32), sym_int('f_ack', 32)
+    if shift is not None:
+        fseq = ex.binop('Add', fseq, shift[0], False)
+        fack = ex.binop('Add', fack, shift[1], False)
+    fs = sim.forged(peer, fseq, fack, ctl, sym_int('f_wnd', 16), 'X', U64(0), tl)
+    sim.info = {'pre': pre, 'flags': flags, 'forged': fs, 'stage': 'arrives', 'p': p}
+    r = sim.arrives(target, fs)
+    sim.info['arr'] = r
+    sim.info['post'] = _snapshot_obs(sim, target)
+    sim.info['stage'] = 'segments'
+    if r == 'Ok':
+        out = sim.segments(target)
+        sim.info['emitted'] = out
+        sim.info['post2'] = _snapshot_obs(sim, target)
+        sim.info['stage'] = 'receive'
+        sim.receive(target)
+        if tier == 'thorough':
+            sim.info['stage'] = 'advance_time'
+            dt = sym_int('dt', 64)
+            ex.assume(ex.binop('Le', dt, U64(5_000_000_000), False))
+            sim.advance_time(target, dt)
+            sim.info['stage'] = 'segments2'
+            sim.segments(target)
+    sim.info['stage'] = 'done'
+    return sim
+
+
+
 class UnitResult:
     def __init__(self, unit):
         self.unit = unit
@@ -304,43 +359,7 @@ def run_forged_unit(ex, F, unit, res, tier='quick', known_classes=None, deadline
     holder = {}
 
     def body(ex):
-        sim = Sim(ex, F)
-        holder['sim'] = sim
-        sim.record = True
-        p = P(ex)
-        builder(sim, p)
-        if sim.view(target).state_name != expect[target]:
-            raise Unsupported(f'situation {sname} did not reach {expect[target]} (got {sim.view(target).state_name})')
-        pre = _snapshot_obs(sim, target)
-        # the forged segment: ACK/RST/SYN/FIN fixed by the unit, PSH/URG symbolic, everything else symbolic
-        rest = sym_int('f_pu', 8)
-        ex.assume(ex.binop('Eq', ex.binop('BitAnd', rest, Int(8, 0xff ^ (PSH | URG)), False), Int(8, 0), False))
-        base = (ACK if 'ACK' in flags else 0) | (RST if 'RST' in flags else 0) | (SYN if 'SYN' in flags else 0) | (FIN if 'FIN' in flags else 0)
-        ctl = ex.binop('BitOr', rest, Int(8, base), False)
-        tl = sym_int('f_len', 64)
-        mss = p.mtu.v - 50
-        ex.assume(ex.binop('Le', tl, U64(mss), False))
-        fs = sim.forged(peer, sym_int('f_seq', 32), sym_int('f_ack', 32), ctl, sym_int('f_wnd', 16), 'X', U64(0), tl)
-        sim.info = {'pre': pre, 'flags': flags, 'forged': fs, 'stage': 'arrives', 'p': p}
-        r = sim.arrives(target, fs)
-        sim.info['arr'] = r
-        sim.info['post'] = _snapshot_obs(sim, target)
-        sim.info['stage'] = 'segments'
-        if r == 'Ok':
-            out = sim.segments(target)
-            sim.info['emitted'] = out
-            sim.info['post2'] = _snapshot_obs(sim, target)
-            sim.info['stage'] = 'receive'
-            sim.receive(target)
-            if tier == 'thorough':
-                sim.info['stage'] = 'advance_time'
-                dt = sym_int('dt', 64)
-                ex.assume(ex.binop('Le', dt, U64(5_000_000_000), False))
-                sim.advance_time(target, dt)
-                sim.info['stage'] = 'segments2'
-                sim.segments(target)
-        sim.info['stage'] = 'done'
-        return sim
+        return forged_scenario(ex, F, unit, tier, holder)
 
     def on_end(ex, kind, r):
         res.paths += 1
@@ -523,6 +542,170 @@ def worker_run(args):
     ex = new_exec()
     try:
         run_forged_unit(ex, _W['F'], unit, res, tier=tier, deadline=t0 + budget)
+    except Unsupported as e:
+        res.unsupported.append(f'{unit}: {e}')
+    except Exception as e:
+        res.unsupported.append(f'{unit}: internal error {e!r}: ' + traceback.format_exc()[-400:])
+    res.wall = time.time() - t0
+    res.stats = dict(ex.stats)
+    res.encoded = sorted(ex.encoded)
+    res.models = sorted(ex.models_used)
+    return res
+
+
+# ------------------------------------------------------------------------------ C12: relational shift invariance (2-safety)
+
+def run_shift_unit(ex, F, unit, res, tier='quick', deadline=None):
+    """run the unit's scenario twice in the same path: once with (issA, issB) and once with (issA+k1, issB+k2) and the forged
+    segment's seq/ack shifted accordingly; every observable must be equal up to the same shifts."""
+    target = unit['target']
+    peer = PEER[target]
+    holder = {}
+
+    def body(ex):
+        k = {'A': sym_int('k1', 32), 'B': sym_int('k2', 32)}
+        p1 = P(ex)
+        sim1 = forged_scenario(ex, F, unit, tier, holder, p=p1, key='sim1')
+        p2 = P(ex, issA=ex.binop('Add', p1.issA, k['A'], False), issB=ex.binop('Add', p1.issB, k['B'], False))
+        holder['k'] = k
+        # forged segment travels peer -> target: its seq lives in the peer's sequence space, its ack in the target's
+        sim2 = forged_scenario(ex, F, unit, tier, holder, p=p2, shift=(k[peer], k[target]), key='sim2')
+        return (sim1, sim2)
+
+    def on_end(ex, kind, r):
+        res.paths += 1
+        sim1, sim2 = holder.get('sim1'), holder.get('sim2')
+        k = holder.get('k')
+        if kind == 'panic':
+            if sim2 is not None and hasattr(sim1, 'info') and sim1.info.get('stage') == 'done':
+                res.obligations += 1
+                res.violations.append(mk_violation(ex, sim2, unit, f'c12:panic-only-after-shift:{_short(r.msg)}',
+                                                   f'the run with shifted ISNs panics ({r.msg} in {r.site}) although the unshifted run does not', 'c12'))
+            return      # a panic in the unshifted run is C17's business
+        diff = compare_shifted(ex, F, sim1, sim2, k, res)
+        if diff is not None:
+            what, model = diff
+            v = mk_violation(ex, sim2, unit, f'c12:shift-variance:{what.split(":")[0]}', 'behaviour depends on absolute sequence numbers: ' + what, 'c12', model=model)
+            # the replay runs BOTH histories natively; predicted lines of the unshifted run are attached for the reader
+            ev = model_eval(model)
+            v['rust'] = render_rust(sim1, ev, '@@NAME@@', prelude=False).replace('@@NAME@@', '@@NAME@@_base') + '\n' + v['rust']
+            v['predicted_base'] = predict_lines(sim1, ev)
+            res.violations.append(v)
+            return
+        if len(res.samples) < 2:
+            okk, m = ex.check_sat()
+            ev = model_eval(m)
+            res.samples.append({'situation': unit['situation'], 'target': target, 'flags': sorted(sim1.info['flags']),
+                                'issA': ev(sim1.info['p'].issA), 'issB': ev(sim1.info['p'].issB), 'k1': ev(k['A']), 'k2': ev(k['B']),
+                                'state': f'{sim1.info["pre"]["state"]}->{sim1.info["post"]["state"]}'})
+
+    ex.explore(body, on_end, deadline=deadline)
+
+
+def _neq(ex, a, b):
+    """satisfiable difference between two Ints under the path condition? returns model or None"""
+    e = ex.binop('Eq', a, b, False)
+    if e is True:
+        return None
+    if e is False:
+        return ex.check_sat()[1]
+    sat, m = ex.check_sat(b_not(e))
+    return m if sat else None
+
+
+def compare_shifted(ex, F, sim1, sim2, k, res):
+    """returns None if run2 == shift(run1) on every observable, else (description, model)"""
+    if len(sim1.ops) != len(sim2.ops):
+        return ('ops:different number of API events', ex.check_sat()[1])
+    for i, (o1, o2) in enumerate(zip(sim1.ops, sim2.ops)):
+        kind, name = o1[0], o1[1]
+        own, other = k[name], k[PEER[name]]
+        r1, r2 = sim1.results[i], sim2.results[i]
+        res.obligations += 1
+        if kind in ('arrives', 'close', 'advance_time'):
+            if r1 != r2:
+                return (f'result:{kind} on {name} returns {r1} vs {r2}', ex.check_sat()[1])
+        elif kind == 'listen':
+            if (r1 if isinstance(r1, str) else r1[0]) != (r2 if isinstance(r2, str) else r2[0]):
+                return (f'result:listen on {name} differs', ex.check_sat()[1])
+        elif kind == 'receive':
+            m = _neq(ex, r1.length(ex), r2.length(ex))
+            if m is not None:
+                return (f'data:receive on {name} returns a different number of bytes', m)
+            if [e[0] for e in r1.ext] != [e[0] for e in r2.ext]:
+                return (f'data:receive on {name} returns bytes of different provenance', ex.check_sat()[1])
+            for (s1, o1_, l1), (s2, o2_, l2) in zip(r1.ext, r2.ext):
+                m = _neq(ex, o1_, o2_) or _neq(ex, l1, l2)
+                if m is not None:
+                    return (f'data:receive on {name} returns different bytes', m)
+        elif kind == 'segments':
+            if len(r1) != len(r2):
+                return (f'emit:segments() on {name} emits {len(r1)} vs {len(r2)} segments', ex.check_sat()[1])
+            for sg1, sg2 in zip(r1, r2):
+                h1, t1 = seg_parts(F, sg1)
+                h2, t2 = seg_parts(F, sg2)
+                m = _neq(ex, h1.ctl, h2.ctl)
+                if m is not None:
+                    return (f'emit:flags of a segment emitted by {name} differ', m)
+                m = _neq(ex, h1.wnd, h2.wnd) or _neq(ex, t1.length(ex), t2.length(ex))
+                if m is not None:
+                    return (f'emit:window or length of a segment emitted by {name} differs', m)
+                m = _neq(ex, ex.binop('Add', h1.seq, own, False), h2.seq)
+                if m is not None:
+                    return (f'emit:relative sequence number of a segment emitted by {name} differs', m)
+                # the acknowledgment field is meaningful (and shifted by the peer's offset) only when ACK is set
+                ackset = ex.binop('Ne', ex.binop('BitAnd', h1.ctl, Int(8, ACK), False), Int(8, 0), False)
+                exp_ack = ex.binop('Add', h1.ack, other, False)
+                ne = b_and(ackset, b_not(ex.binop('Eq', exp_ack, h2.ack, False)))
+                if ne is not False:
+                    sat, m = ex.check_sat(ne)
+                    if sat:
+                        return (f'emit:relative acknowledgment number of a segment emitted by {name} differs', m)
+                if [e[0] for e in t1.ext] != [e[0] for e in t2.ext]:
+                    return (f'emit:payload provenance of a segment emitted by {name} differs', ex.check_sat()[1])
+                for (s1, a1, l1), (s2, a2, l2) in zip(t1.ext, t2.ext):
+                    m = _neq(ex, a1, a2) or _neq(ex, l1, l2)
+                    if m is not None:
+                        return (f'emit:payload of a segment emitted by {name} differs', m)
+    # final states
+    for name in ('A', 'B'):
+        if sim1.alive(name) != sim2.alive(name):
+            return (f'state:{name} exists in one run only', ex.check_sat()[1])
+        if not sim1.alive(name):
+            continue
+        v1, v2 = sim1.view(name), sim2.view(name)
+        res.obligations += 1
+        if v1.state_name != v2.state_name:
+            return (f'state:{name} ends in {v1.state_name} vs {v2.state_name}', ex.check_sat()[1])
+        own, other = k[name], k[PEER[name]]
+        for fld in ('una', 'nxt'):
+            m = _neq(ex, ex.binop('Add', v1.snd(fld), own, False), v2.snd(fld))
+            if m is not None:
+                return (f'state:SND.{fld.upper()} of {name} is not shifted consistently', m)
+        m = _neq(ex, v1.snd('wnd'), v2.snd('wnd'))
+        if m is not None:
+            return (f'state:SND.WND of {name} differs', m)
+        if v1.state_name != 'SynSent':
+            m = _neq(ex, ex.binop('Add', v1.rcv('nxt'), other, False), v2.rcv('nxt'))
+            if m is not None:
+                return (f'state:RCV.NXT of {name} is not shifted consistently', m)
+        if len(v1.retransmit.items) != len(v2.retransmit.items) or len(v1.in_segments.items) != len(v2.in_segments.items):
+            return (f'state:queue lengths of {name} differ', ex.check_sat()[1])
+        m = _neq(ex, v1.in_text.length(ex), v2.in_text.length(ex)) or _neq(ex, v1.out_text.length(ex), v2.out_text.length(ex))
+        if m is not None:
+            return (f'state:buffered text of {name} differs', m)
+    return None
+
+
+def worker_run_shift(args):
+    unit, tier, budget = args
+    if not _W:
+        worker_init()
+    res = UnitResult(unit)
+    t0 = time.time()
+    ex = new_exec()
+    try:
+        run_shift_unit(ex, _W['F'], unit, res, tier=tier, deadline=t0 + budget)
     except Unsupported as e:
         res.unsupported.append(f'{unit}: {e}')
     except Exception as e:
